@@ -173,6 +173,14 @@ def run(chk, tier, seed):
     # plus histories with unformatted (MMB-like) images, same allocation rules
     keys_u = [k.replace("3", "U3") for k in keys if "3" in k][: len(keys) // 4]
     lines = keys + keys_u
+    # block reads after the last attach: every drive 0..max+1, sectors around the cache size, each sector twice and interleaved
+    def with_reads(line, k):
+        rr = random.Random(seed * 1009 + k)
+        toks = []
+        for _ in range(10):
+            toks.append("r%d:%d" % (rr.randrange(0, 12), rr.choice([0, 1, 3, 4, 5, 0, 1])))
+        return line + " " + " ".join(toks)
+    lines = [with_reads(l, k) for k, l in enumerate(lines)]
     chk.exhaustive = True
     # 2. replay through the real StorageConfiguration
     res, p = run_h_storage(bdir, lines)
@@ -186,8 +194,10 @@ def run(chk, tier, seed):
         else:
             for hid, (line, rr) in enumerate(zip(lines, res)):
                 idx[hid] = ("h_storage", line)
-                events += events_from_harness(hid, line.split(), rr)
-                chk.case(("h", line), nontrivial=sum(1 for t in line.split() if t not in "PF") >= 2)
+                events += events_from_harness(hid, [t for t in line.split() if not t.startswith("r")], rr)
+                for d_, sec_, gi, gs, gsec in rr.get("reads", []):
+                    events.append(dict(e="block", d=d_, sec=sec_, img=gi, side=gs, got=gsec))
+                chk.case(("h", line), nontrivial=sum(1 for t in line.split() if t not in "PF" and not t.startswith("r")) >= 2)
                 # show_drive_configuration must agree with the map (the "--show-config reports this assignment" part)
                 cfgmap = {}
                 for ln in rr["config"].split("\n"):
